@@ -187,15 +187,16 @@ class Daemon:
             self.queue.task_done(key)
         return key, str(task), fin
 
-    def drain(self, limit=500):
+    def drain(self, limit=500, polls=12):
         ran = []
         while limit > 0:
             r = self.run_task()
             if r is None:
-                if self.queue.deferred_size:
+                if self.queue.deferred_size and polls > 0:
+                    polls -= 1        # tasks waiting for something (an HSM restore) poll a few times, then stay deferred
                     # make deferred puts due
                     import alpenhorn.scheduler.queue as qmod
-                    self.queue._deferrals = [(0, *d[1:]) for d in self.queue._deferrals]
+                    self.queue._deferrals = [(k * 1e-9, *d[1:]) for k, d in enumerate(self.queue._deferrals)]
                     continue
                 break
             ran.append(r)
